@@ -156,6 +156,8 @@ def resolve(expr, start={}):
                     env[binding[0].name] = True
 
                 predefine(env, expr[2:])
+                # the initial values are evaluated inside the new frame as well
+                predefine(env, [binding[1] for binding in expr[1] if len(binding) > 1])
                 body = [resolve_vars(sub) for sub in expr[2:]]
                 scopes.pop()
                 return WList([Operator.LET, expr[1], *body], line_info=expr.line_info)
